@@ -181,6 +181,12 @@ def worker(case):
     root = roots(n, h)[rname]
     fn = getattr(s, fname)
     has_pat, selections, has_rec, hier = FUNCS[fname]
+    if lookup_on == "again":
+        # the plugin switched off and on again (as around a bulk operation), nothing edited in between
+        s.namespace_manager.deregister_all_listeners()
+        s.namespace_manager.register_all_listeners()
+        lookup_on = True
+    root_before = list(root) if isinstance(root, list) else None
     if not lookup_on:
         from spydrnet.global_state.global_service import deregister_lookup
         deregister_lookup(".NAME")
@@ -287,6 +293,10 @@ def worker(case):
                                               "%s(%s, %r, %r): expected %d got %d" % (fname, rname, arg, kk, len(set(want)), len(set(G)))))
                             elif want:
                                 nontrivial += 1
+    if case[3] == "again":
+        probs = [(c, d + " (plugin switched off and on again before the queries)") for c, d in probs]
+    if root_before is not None and (len(root) != len(root_before) or any(a is not b for a, b in zip(root, root_before))):
+        probs.append(("query-changed-the-callers-list:%s" % fname, "the list of roots handed in had %d elements, has %d after the queries" % (len(root_before), len(root))))
     return {"key": core.digest(case), "nontrivial": nontrivial > 0, "outcome": "ok", "problems": list(dict.fromkeys(probs)), "transitions": nq}
 
 
@@ -299,7 +309,9 @@ def cases(tier):
     for policy in ("DEFAULT", "EDIF", "DEFAULT+pop", "EDIF+pop", "DEFAULT+ren", "EDIF+ren"):
         for fname in FUNCS:
             for rname in ROOTS:
-                for lookup_on in (True, False):
+                for lookup_on in (True, False, "again"):
+                    if lookup_on == "again" and "+" in policy and tier != "thorough":
+                        continue
                     for order in (core.ORDER_VARIANTS if tier == "thorough" else ("asc",)):
                         out.append((policy, fname, rname, lookup_on, order))
     return out
